@@ -75,6 +75,13 @@ Technique (numbers = the ALLOWED devices of RULES_GUIDE.md "What counts as stati
       setting of the two boolean view flags parse / pretty), 2, 6 (format strings of struct.unpack / struct.Struct and
       module-level tables folded).  Lemma F0.
 
+  All rules that use the value flow (`_Ev`): 1 (argument binding also for the library callables the model interprets -
+      `_EXT_PARAMS` / `_METH_PARAMS`, the documented positional-or-keyword parameters of io.BytesIO, int.from_bytes,
+      enumerate, bytes / bytearray, struct.Struct and of split / rsplit / decode / encode / splitlines / to_bytes: a keyword
+      argument is moved to its position before a transfer rule looks at it, so `io.BytesIO(initial_bytes=data)`,
+      `int.from_bytes(bytes=d, byteorder="big")`, `x.split(sep=s, maxsplit=1)` are the positional calls; package callees
+      (u32be = partial(unpack, ..) called with data=..) are bound by their own signature in `call_func`).
+
 Lemmas (each used by a transfer rule below; anything else about an assumed or symbolic value stays undecided)
   D1  a 1-byte string decodes to the same integer in both byte orders (nothing to reorder).
   D2  signed and unsigned decoding of w bytes agree when the unsigned value is < 2**(8w-1) (sign bit clear).
@@ -123,7 +130,7 @@ import os
 
 from csverif import tables
 from csverif.astutil import (
-    assignments_to, bind_args, body_walk, compare_parts, const_eval, dotted, fn_calls, is_const, kwarg, NotConst, param_annotation,
+    arg as _arg, assignments_to, bind_args, body_walk, compare_parts, const_eval, dotted, fn_calls, is_const, kwarg, NotConst, param_annotation,
     param_defaults, params, src,
 )
 
@@ -183,6 +190,8 @@ def run(ctx):
                         "the value-flow model of the Python operations used by the parsers (io.BytesIO.read/tell, int.from_bytes, struct.unpack formats, "
                         "list/set/dict operations, str.format / %-format templates) in rules/c03.py::_Ev",
                         "assumption: reads of a well-formed encoding are complete (a read of n bytes returns n bytes)",
+                        "library signatures in rules/c03.py::_EXT_PARAMS / _METH_PARAMS (names of the positional-or-keyword parameters of io.BytesIO, int.from_bytes, enumerate, "
+                        "bytes / bytearray, struct.Struct, split / rsplit / decode / encode / splitlines / to_bytes): a keyword argument naming one of them is that positional argument",
                         "lemma D1: a 1-byte string decodes to the same integer in both byte orders",
                         "lemma D2: signed and unsigned decoding of w bytes agree when the unsigned value is < 2**(8w-1)",
                         "lemma B1: byte strings of different lengths differ",
@@ -538,6 +547,30 @@ _BUILTIN_NAMES = {"len", "int", "bool", "str", "bytes", "bytearray", "memoryview
                   "getattr", "hasattr", "isinstance", "min", "max", "any", "all", "zip", "enumerate", "range", "hex", "repr", "format", "print", "iter",
                   "next", "abs", "sum", "ord", "chr", "type", "callable", "id", "divmod", "map", "filter", "object",
                   "ValueError", "IndexError", "KeyError", "TypeError", "Exception", "RuntimeError", "NotImplementedError", "AttributeError", "EOFError"}
+# Library signatures (policy device 1: argument binding): the leading positional-or-keyword parameters of the external
+# callables / bytes-str methods that the value-flow model interprets.  A call that passes them by keyword is the same call
+# (`io.BytesIO(initial_bytes=x)` is `io.BytesIO(x)`, `x.split(sep=s, maxsplit=1)` is `x.split(s, 1)`); `_bind_lib` moves
+# such keywords to their positions before a transfer rule looks at the arguments.  Parameters that CPython accepts only
+# positionally (BytesIO.read(size, /), bytes.partition(sep, /), dict.get, struct.unpack ...) are not listed: a keyword
+# there is a TypeError at run time, not a spelling of the call.
+_EXT_PARAMS = {"io.BytesIO": ("initial_bytes",), "int.from_bytes": ("bytes", "byteorder"), "enumerate": ("iterable", "start"),
+               "bytes": ("source", "encoding", "errors"), "bytearray": ("source", "encoding", "errors"), "struct.Struct": ("format",)}
+_METH_PARAMS = {"split": ("sep", "maxsplit"), "rsplit": ("sep", "maxsplit"), "decode": ("encoding", "errors"), "encode": ("encoding", "errors"),
+                "splitlines": ("keepends",), "to_bytes": ("length", "byteorder")}
+
+
+def _bind_lib(names, args, kwargs):
+    """(args, kwargs) with the keywords that name the next positional parameters moved to their positions"""
+    if not kwargs or not names:
+        return args, kwargs
+    if any(n in kwargs for n in names[: len(args)]):
+        raise _Raise("TypeError")  # a parameter given both by position and by keyword
+    args, kwargs = list(args), dict(kwargs)
+    while len(args) < len(names) and names[len(args)] in kwargs:
+        args.append(kwargs.pop(names[len(args)]))
+    return args, kwargs
+
+
 def sys_byteorder():
     import sys
 
@@ -2072,6 +2105,7 @@ class _Ev:
         return tuple(out)
 
     def call_ext(self, name, args, kwargs, st, node):
+        args, kwargs = _bind_lib(_EXT_PARAMS.get(name), args, kwargs)
         a0 = args[0] if args else None
         if name == "io.BytesIO":
             return st.alloc(node, _HStream(a0 if args else b""), "stream")
@@ -2248,6 +2282,8 @@ class _Ev:
         return _T("len", (v,))
 
     def call_method(self, recv, attr, args, kwargs, st, node):
+        if not isinstance(recv, (_Ref, _Fn)):
+            args, kwargs = _bind_lib(_METH_PARAMS.get(attr), args, kwargs)  # bytes / str / int methods (library signatures)
         a0 = args[0] if args else None
         if isinstance(recv, _Fn) and recv.kind == "structobj" and attr in ("unpack", "unpack_from") and len(args) == 1 and not kwargs \
                 and isinstance(a0, _Rd) and isinstance(a0.n, int):
@@ -4090,7 +4126,7 @@ def r8(ctx):
     if len(g) == 1:
         nval = _c(bind_args(g[0], gf.node).get(params(gf.node)[1])) if gf is not None and len(params(gf.node)) > 1 else _c(g[0].args[1] if len(g[0].args) > 1 else kwarg(g[0], "n"))
     ok = len(g) == 1 and nval == 2
-    sp = [c for c in fn_calls(pairs.node) if isinstance(c.func, ast.Attribute) and c.func.attr == "split" and c.args and is_const(c.args[0], ",")]
+    sp = [c for c in fn_calls(pairs.node) if isinstance(c.func, ast.Attribute) and c.func.attr == "split" and is_const(_arg(c, 0, "sep"), ",")]
     ctx.ob("R8", "AGREE", pairs, "grouper(split(','), 2)", ok and len(sp) == 1, "pairs are consecutive members of the comma-separated list" if ok else "pairing is not grouper(..., 2)")
     # domains / uris: the distinct first / second members of the pairs, in order of first occurrence.  The value the
     # property returns is abstracted to (which member of each pair, by which member it is de-duplicated) - see _Proj.
